@@ -25,7 +25,7 @@ def main():
     for name in names:
         d = os.path.join(SEEDED, name)
         meta = json.load(open(os.path.join(d, "meta.json")))
-        pid = meta["property"]
+        pid = meta.get("check_with", meta["property"])      # a change may sit in the anchored code of another property
         a = sh("git -C /repo apply %s/patch.diff" % d)
         if a.returncode != 0:    # context lines may have been touched by a fix: commit; retry with less context
             a = sh("git -C /repo apply -C1 %s/patch.diff" % d)
